@@ -46,7 +46,9 @@ def menus(cls):
 
 XPOOL = {'0': 0.0, '1': 1.0, 'm': -3.7, 'big': 1e4, 'arr': (2.0, -50.0), 'arr0': (0.0, 3.0),
          # the same kind of point with integer type: the documented sequence depends on the value of x only
-         'int': ('py-int', 3), 'iarr': ('int-arr', (2, -50))}
+         'int': ('py-int', 3), 'iarr': ('int-arr', (2, -50)),
+         # a complex point (documented for Limit: "z0 may be real or complex"): the nominal step grows with the MODULUS
+         'cx': ('complex', (60.0, -80.0))}
 
 
 def lib_x(xv):
@@ -55,6 +57,8 @@ def lib_x(xv):
         return int(xv[1])
     if isinstance(xv, tuple) and xv and xv[0] == 'int-arr':
         return np.array(xv[1], dtype=np.int64)
+    if isinstance(xv, tuple) and xv and xv[0] == 'complex':
+        return np.asarray(complex(*xv[1]))
     return np.asarray(_val(('arr', xv)) if isinstance(xv, tuple) else xv, dtype=float)
 
 
@@ -102,7 +106,7 @@ def compare(lib_steps, model_steps, ratio, exps):
 def one_case(cls, opts, method, n, order, xv):
     """Returns (status, text).  status in ok / skip / bad"""
     xl = lib_x(xv)
-    x = np.asarray(xl, dtype=float)          # the model works on the value
+    x = np.asarray(xl, dtype=complex if np.iscomplexobj(xl) else float)          # the model works on the value
     mopts = {k: _val(v) for k, v in opts.items()}
     bs = mopts.get('base_step')
     if isinstance(bs, np.ndarray) and x.ndim == 1 and x.shape != bs.shape:
@@ -302,9 +306,9 @@ def run(ctx):
                 pass  # dtheta without spiral path must have no effect - still checked
             vectors.append((cls, opts))
     nords = nord_pool(ctx)
-    xkeys = ['0', '1', 'm', 'big', 'arr', 'arr0', 'int', 'iarr']
+    xkeys = ['0', '1', 'm', 'big', 'arr', 'arr0', 'int', 'iarr', 'cx']
     if ctx.quick:
-        xkeys = ctx.rotate(['0', '1', 'm', 'big'], 2) + ['arr'] + ctx.rotate(['int', 'iarr'], 1)
+        xkeys = ctx.rotate(['0', '1', 'm', 'big'], 2) + ['arr'] + ctx.rotate(['int', 'iarr'], 1) + ['cx']
     acc = ctx.pmap(work, vectors, chunk=8 if ctx.quick else 16, nords=nords, xkeys=xkeys)
 
     cells = [(m, n, o) for m in METHODS for n in range(1, 11) for o in range(1, 11)
